@@ -1790,6 +1790,29 @@ def m_partial_ord_default(interp, path, args, ret_ty, callee):
     return outs
 
 
+def _di(x):
+    return z3.IntVal(x) if isinstance(x, int) else x
+
+
+@model(r"^<Option<(.+)> as PartialEq>::eq$", "derived: both None, or both Some with equal payloads")
+def m_option_eq(interp, path, args, ret_ty, callee):
+    from .interp import _ConstRef
+    t = re.match(r"^<Option<(.+)> as PartialEq>::eq$", canon(callee)).group(1)
+    a, b = deref(interp, path, args[0]), deref(interp, path, args[1])
+    same = a.discr == b.discr if not (isinstance(a.discr, int) and isinstance(b.discr, int)) else z3.BoolVal(a.discr == b.discr)
+    pa, pb = a.variants.get(1), b.variants.get(1)
+    if not pa or not pb:
+        return BoolV(z3.And(same, _di(a.discr) == 0)) if (pa or pb) else BoolV(same)
+    outs = []
+    for o in interp.call_named(path, "<%s as PartialEq>::eq" % t,
+                               [_ConstRef("&" + t, pa[0]), _ConstRef("&" + t, pb[0])], "bool"):
+        if o.kind != "ret":
+            outs.append(o)
+        else:
+            outs.append(Outcome(o.path, "ret", BoolV(z3.And(same, z3.Or(_di(a.discr) == 0, o.value.term)))))
+    return outs
+
+
 @model(r"^<.* as PartialEq(<[^>]*>)?>::ne$", "default method: !eq")
 def m_ne_default(interp, path, args, ret_ty, callee):
     target = callee[:callee.rindex("::")] + "::eq"
